@@ -287,6 +287,53 @@ Definition tokenize (c : cfg) (s : str) : res (list tree) :=
 End Named.
 
 (* ------------------------------------------------------------------ *)
+(* How callbacks.tokenize OBTAINS its configuration for a message: registry.Value.getSpecific
+   (src/registry.py) and conf.get (src/conf.py).  A channel/network value has a base (global) value and
+   optional values set for the channel, for the network, and for the channel on that network; a value
+   that was not set follows its parent (base -> #chan ; base -> :net -> :net.#chan). *)
+Record store (V : Type) := Store { s_base : V; s_chan : option V; s_net : option V; s_netchan : option V }.
+Arguments Store {V}. Arguments s_base {V}. Arguments s_chan {V}. Arguments s_net {V}. Arguments s_netchan {V}.
+
+Definition or_else {V} (o : option V) (d : V) : V := match o with Some v => v | None => d end.
+Definition is_set {V} (o : option V) : bool := match o with Some _ => true | None => false end.
+
+(* Value.getSpecific(network, channel) after its validity filter: net/chan say whether a
+   connected network / a valid channel name was given *)
+Definition get_specific {V} (st : store V) (net chan : bool) : V :=
+  if net && chan then
+    (* network_value._wasSet or network_channel_value._wasSet: cases 1 and 2, else case 3 *)
+    if is_set (s_net st) || is_set (s_netchan st)
+    then or_else (s_netchan st) (or_else (s_net st) (s_base st))
+    else or_else (s_chan st) (s_base st)
+  else if net then or_else (s_net st) (s_base st)
+  else if chan then or_else (s_chan st) (s_base st)
+  else s_base st.
+
+(* conf.get(group, channel=None, network=None) = group.getSpecific(channel=channel, network=network)() *)
+Definition conf_get {V} (st : store V) (chan net : bool) : V := get_specific st net chan.
+
+(* where a message comes from: a name may be given and still be dropped by getSpecific
+   (channel that is not a channel name, network that is not connected) *)
+Record loc := Loc { net_given : bool; net_connected : bool; chan_given : bool; chan_valid : bool }.
+Definition loc_net (l : loc) : bool := net_given l && net_connected l.
+Definition loc_chan (l : loc) : bool := chan_given l && chan_valid l.
+
+Record conf := Conf { k_nested : bool; k_brackets : store (option (N * N)); k_pipe : store bool; k_quotes : store str }.
+
+(* the lookups of callbacks.tokenize(s, channel, network):
+     nested.brackets.getSpecific(network, channel)()
+     conf.get(nested.pipeSyntax, channel=channel, network=network)
+     conf.supybot.commands.quotes.getSpecific(network, channel)()   *)
+Definition cfg_at (k : conf) (l : loc) : cfg :=
+  Cfg (k_nested k)
+      (get_specific (k_brackets k) (loc_net l) (loc_chan l))
+      (conf_get (k_pipe k) (loc_chan l) (loc_net l))
+      (get_specific (k_quotes k) (loc_net l) (loc_chan l)).
+
+Definition tokenize_at (named : bytes -> option N) (k : conf) (l : loc) (s : str) : res (list tree) :=
+  tokenize named (cfg_at k l) s.
+
+(* ------------------------------------------------------------------ *)
 (* str.encode('unicode_escape') and utils.str.dqrepr *)
 Definition hexdig (v : N) : N := if v <? 10 then 48 + v else 87 + v.
 Fixpoint hexn (k : nat) (n : N) : list N :=
@@ -348,7 +395,13 @@ Definition vRexn {A} (f : A -> value) (r : res A) : value := vR f r.
    op 1: Tokenizer(brackets,pipe,quotes).tokenize   payload (_ brackets pipe quotes names s)
    op 2: dqrepr s     op 3: unicode_escape_decode (names bytes)
    op 4: utf8_decode bytes    op 5: utf8_encode str
-   op 6: dq_dom s     op 7: minimal_quote s     op 8: lexer only (brackets pipe quotes s) *)
+   op 6: dq_dom s     op 7: minimal_quote s     op 8: lexer only (brackets pipe quotes s)
+   op 9: callbacks.tokenize(s, channel, network) with per-channel/network values:
+         payload (nested brackets-store pipe-store quotes-store (net_given net_connected chan_given chan_valid) names s),
+         a store is (base chan? net? netchan?) with x? = () | (x) *)
+Definition gStore {V} (f : value -> V) (v : value) : store V :=
+  Store (f (nth_v 0 v)) (gO f (nth_v 1 v)) (gO f (nth_v 2 v)) (gO f (nth_v 3 v)).
+
 Definition run (v : value) : value :=
   let p := nth_v 1 v in
   match gN (nth_v 0 v) with
@@ -368,5 +421,10 @@ Definition run (v : value) : value :=
       let t := Tk (gBrk (nth_v 0 p)) (gB (nth_v 1 p)) (gS (nth_v 2 p)) in
       let '(ts, e) := lex_all t (gS (nth_v 3 p)) in
       L [vLS ts; match e with None => L [] | Some x => L [I (exn_code x)] end]
+  | 9 =>
+      let k := Conf (gB (nth_v 0 p)) (gStore gBrk (nth_v 1 p)) (gStore gB (nth_v 2 p)) (gStore gS (nth_v 3 p)) in
+      let lv := nth_v 4 p in
+      let l := Loc (gB (nth_v 0 lv)) (gB (nth_v 1 lv)) (gB (nth_v 2 lv)) (gB (nth_v 3 lv)) in
+      vR vTrees (tokenize_at (named_of (nth_v 5 p)) k l (gS (nth_v 6 p)))
   | _ => L []
   end.
